@@ -1289,10 +1289,19 @@ class BaseEvolutionOperations(object):
         sql_result = SQLResult()
         table_name = model._meta.db_table
 
-        old_unique_together = set(old_unique_together)
-        new_unique_together = set(new_unique_together)
+        # These are processed in the order they're listed in, so that the
+        # generated SQL is deterministic (iterating over sets of strings
+        # depends on the hash seed of the process).
+        old_unique_together = self._normalize_together_list(
+            old_unique_together)
+        new_unique_together = self._normalize_together_list(
+            new_unique_together)
 
-        to_remove = old_unique_together.difference(new_unique_together)
+        to_remove = [
+            field_names
+            for field_names in old_unique_together
+            if field_names not in new_unique_together
+        ]
 
         for field_names in to_remove:
             fields = self.get_fields_for_names(model, field_names)
@@ -1347,10 +1356,16 @@ class BaseEvolutionOperations(object):
         sql_result = SQLResult()
         table_name = model._meta.db_table
 
-        old_index_together = set(old_index_together or [])
-        new_index_together = set(new_index_together)
+        old_index_together = self._normalize_together_list(
+            old_index_together)
+        new_index_together = self._normalize_together_list(
+            new_index_together)
 
-        to_remove = old_index_together.difference(new_index_together)
+        to_remove = [
+            field_names
+            for field_names in old_index_together
+            if field_names not in new_index_together
+        ]
 
         for field_names in to_remove:
             fields = self.get_fields_for_names(model, field_names)
@@ -2150,6 +2165,28 @@ class BaseEvolutionOperations(object):
             return 1
         else:
             return 0
+
+    def _normalize_together_list(self, together):
+        """Return a ``*_together`` value as an ordered list of unique tuples.
+
+        Args:
+            together (list or set):
+                The list of field name lists.
+
+        Returns:
+            list of tuple:
+            The entries as tuples, in their original order, without
+            duplicates.
+        """
+        result = []
+
+        for field_names in together or []:
+            field_names = tuple(field_names)
+
+            if field_names not in result:
+                result.append(field_names)
+
+        return result
 
     def _are_ops_mergeable(self, op1, op2):
         """Returns whether two operations can be merged.
